@@ -37,6 +37,12 @@ inductive Op (α : Type) where
   | setArraysize (n : Nat)
   | observe (kind : Obs)
   | append (r : α)
+  /-- an `append` that is left by an exception — the record is rejected (schema validation, a record that is
+  not a mapping, a row that cannot be sized).  `stage` is the statement of `append` that raised (an index
+  into `Gen.Cursor.appendPoints`, regenerated from the source); `r` the row that would have been stored.
+  `drops` is read by the spec machine only: whether the rejected append left the cursor dropped — the code
+  machine computes that from the source's statement order and its own state (`Impl.tag`). -/
+  | reject (stage : Nat) (drops : Bool) (r : α)
   deriving Repr
 
 inductive Out (α : Type) where
@@ -44,8 +50,8 @@ inductive Out (α : Type) where
   | many (rs : List α)
   | unit
   | err
-  /-- the operation is outside the property's domain for this frame (row-level observer or append on a
-  lazily backed frame); the code machine does not claim anything about it -/
+  /-- the operation is outside the property's domain for this frame (a row-level observer on a lazily backed
+  frame); the code machine does not claim anything about it -/
   | outside
   deriving Repr, DecidableEq
 
@@ -83,6 +89,8 @@ def step (s : State α) : Op α → State α × Out α
   | .setArraysize n => ({ s with arraysize := n }, .unit)
   | .observe _ => (s, .unit)
   | .append r => ({ s with rows := s.rows ++ [r], valid := false }, .unit)
+  -- a rejected append adds no row; the fetch calls may refuse afterwards (always safe), nothing else
+  | .reject _ drops _ => ({ s with valid := s.valid && !drops }, .unit)
 
 /-- The rows delivered by one output. -/
 def fetched : Out α → List α
@@ -146,6 +154,10 @@ def Chunks.rows (c : Chunks α) : List α :=
   match c.maxSize with
   | none => all
   | some m => all.take (m - c.processed)
+
+/-- `list(self._rows)` in `materialize()` (`dataframe.py:200-201`) runs the iterator to its end: nothing is
+left in it, and (a generator, `_RowsIterator`) it stays at its end. -/
+def Chunks.drain (c : Chunks α) : Chunks α := { c with tables := [], current := [] }
 
 def Chunks.ofTables (tables : List (List α)) (maxSize : Option Nat) : Chunks α :=
   { tables := tables, current := [], processed := 0, maxSize := maxSize }
@@ -222,7 +234,26 @@ empty range. -/
 def fetchCount (arraysize : Nat) (k : Option Nat) : Nat :=
   (Gen.Cursor.loopBound (Gen.Cursor.fetchSize (arraysize : Int) (k.map Int.ofNat))).toNat
 
+/-- What `append` has done when it is left by an exception at statement `stage` (`Gen.Cursor.appendPoints`,
+regenerated from the source); a statement the table does not have: nothing yet. -/
+def rejectPoint (stage : Nat) : Gen.Cursor.AppendPoint :=
+  (Gen.Cursor.appendPoints[stage]?).getD ⟨fun _ _ _ => false, fun _ _ _ => false, fun _ _ _ => false⟩
+
 namespace Impl
+
+/-- Does a rejected append (left at statement `stage`) leave `self._cursor = None` behind?  `_rows` of a
+lazily backed frame is not a list: `append` starts with `materialize()` and drops the cursor it has just
+run to its end (`dataframe.py:137-140`) — before any statement that can reject the record. -/
+def rejectDrops (f : Frame α) (stage : Nat) : Bool :=
+  match f.backing with
+  | .eager _ _ => (rejectPoint stage).dropped true f.schemaRel f.nbytesTracked
+  | .lazy _ => (rejectPoint stage).dropped false f.schemaRel f.nbytesTracked
+
+/-- Has a rejected append (left at statement `stage`) stored the row already? -/
+def rejectStores (f : Frame α) (stage : Nat) : Bool :=
+  match f.backing with
+  | .eager _ _ => (rejectPoint stage).stored true f.schemaRel f.nbytesTracked
+  | .lazy _ => (rejectPoint stage).stored false f.schemaRel f.nbytesTracked
 
 /-- `DataFrame(rows=[...], schema=…)` / `DataFrame(dictionaries)` (`dicts = true`: the running byte
 total is not kept until `nbytes()` is called, `dataframe.py:63,91`). -/
@@ -258,7 +289,32 @@ def step (f : Frame α) : Op α → Frame α × Out α
     | .eager rows p =>
       ({ f with backing := .eager (rows ++ [r]) p,
                 live := f.live && !(Gen.Cursor.appendInvalidates f.schemaRel f.nbytesTracked) }, .unit)
-    | .lazy _ => (f, .outside)
+    -- `_rows` is not a list (`dataframe.py:137-140`): `materialize()` runs the iterator — which *is* the
+    -- cursor — to its end; the cursor is then whatever the source leaves it.  (Which rows the list holds after
+    -- that is not this property's business: the store of a frame that started lazily is not tracked.)
+    | .lazy src =>
+      ({ f with backing := .lazy (if Gen.Cursor.appendMaterializes false f.schemaRel f.nbytesTracked then src.drain else src),
+                live := f.live && !(Gen.Cursor.appendDropsCursor false f.schemaRel f.nbytesTracked),
+                nbytesTracked := f.nbytesTracked }, .unit)
+  | .reject stage _ r =>
+    match f.backing with
+    | .eager rows p =>
+      ({ f with backing := .eager (if rejectStores f stage then rows ++ [r] else rows) p,
+                live := f.live && !(rejectDrops f stage) }, .unit)
+    | .lazy src =>
+      ({ f with backing := .lazy (if (rejectPoint stage).materialized false f.schemaRel f.nbytesTracked then src.drain else src),
+                live := f.live && !(rejectDrops f stage) }, .unit)
+
+/-- The operation as the spec machine reads it: a rejected append says whether it left the cursor dropped;
+one that is left after the row was stored *is* an append, for the frame. -/
+def tag (f : Frame α) : Op α → Op α
+  | .reject stage _ r => if rejectStores f stage then .append r else .reject stage (rejectDrops f stage) r
+  | op => op
+
+/-- A history annotated for the spec machine along the run of the code machine. -/
+def annot (f : Frame α) : List (Op α) → List (Op α)
+  | [] => []
+  | op :: ops => tag f op :: annot (step f op).1 ops
 
 def run (f : Frame α) : List (Op α) → Frame α × List (Out α)
   | [] => (f, [])
@@ -396,6 +452,9 @@ end Sys
 (schema-level observers do not read rows). -/
 def LazyOk : Op α → Bool
   | .fetchone | .fetchmany _ | .fetchall | .setArraysize _ | .observe .pure => true
+  -- `append` is not a read: it is in the property for every frame ("once a row has been appended the fetch
+  -- calls refuse"), and so is an append that is rejected
+  | .append _ | .reject _ _ _ => true
   | _ => false
 
 /-- The rows of a frame backed by `tables` with `max_size`. -/
